@@ -71,7 +71,7 @@ def _case(draw, tier):
     else:
         mesh = meshgen.latlon_mesh(draw(st.integers(11, 18)), draw(st.integers(5, 8)), draw(st.sampled_from([0.0, 7.5, 33.0, 180.0])), poles=False)
         mesh["family"] = "latlon-band"
-    return {"mesh": _planar_safe(mesh), "steps": draw(st.lists(_step(), min_size=1, max_size=6))}
+    return {"mesh": _planar_safe(mesh), "steps": draw(st.lists(_step(), min_size=1, max_size=6)), "radius": draw(st.sampled_from([None, None, None, 6371229.0]))}
 
 
 def _planar_safe(mesh):
@@ -245,7 +245,9 @@ def run_case(case, ctx):
         if _am_faces(mesh, l0)[1]:
             ctx.label("no-verdict:edge-spans-180")
             return fails
-    g = build.grid_from_mesh(mesh)
+    g = build.grid_from_mesh(mesh, **(build.cartesian_kw(mesh, case["radius"]) if case.get("radius") else {}))
+    if case.get("radius"):
+        ctx.label("cartesian-radius")
     data = [np.arange(n_face, dtype=float) * 1.5 + 3.0, 1000.0 - np.arange(n_face, dtype=float) * 7.0]
     das = [ux.UxDataArray(data[k].copy(), dims=["n_face"], uxgrid=g, name=f"v{k}") for k in range(2)]
     returned = []  # (step index, kind, object, snapshot)
